@@ -74,23 +74,20 @@ Theorem C03_initial_frontier_nonempty : forall g am r0 outs st,
   rev (st_plan st) <> [] -> filter (ready g r0) (rev (st_plan st)) <> [].
 Proof. exact initial_frontier_nonempty. Qed.
 
-(* (9) the executable oracle applied to the implementation's answers in the correspondence
-       check: accepted plans satisfy (2)-(6); its duplicate/valid/complete part is exact;
-       a request it calls plannable is plannable (so an error on it is unjustified) *)
-Theorem C03_oracle_sound : forall g am r0 outs plan,
-  plan_okb g am r0 outs plan = true ->
+(* (9) the executable oracles applied to the implementation's answers in the correspondence
+       check are EXACT: a plan passes plan_okb iff it satisfies (2)-(6); a request passes
+       request_plannableb iff it is plannable (so Err on it is unjustified, and Err on a request
+       that fails it is justified) *)
+Theorem C03_oracle_exact : forall g am r0 outs plan,
+  plan_okb g am r0 outs plan = true <->
   NoDup plan /\ plan_ops_exist g plan /\ plan_valid g am r0 plan /\
   plan_complete g am r0 outs plan /\ plan_minimal g r0 outs plan.
-Proof. exact plan_okb_sound. Qed.
+Proof. exact plan_okb_iff. Qed.
 
-Theorem C03_oracle_core_exact : forall g am r0 outs plan,
-  nodupb plan && valid_fromb g am r0 plan && completeb g am r0 outs plan = true <->
-  NoDup plan /\ plan_ops_exist g plan /\ plan_valid g am r0 plan /\ plan_complete g am r0 outs plan.
-Proof. exact plan_okb_core_exact. Qed.
-
-Theorem C03_plannable_oracle_sound : forall g ins outs am ca,
-  request_plannableb g ins outs am ca = true -> request_plannable g ins outs am ca.
-Proof. exact request_plannableb_sound. Qed.
+Theorem C03_plannable_oracle_exact : forall g ins outs am ca,
+  wf_graph g ->
+  (request_plannableb g ins outs am ca = true <-> request_plannable g ins outs am ca).
+Proof. exact request_plannableb_iff. Qed.
 
 (* ---- non-vacuity: a 9-node graph (multi-output Split, a constant, an optional input, an
    in-place capable operator, a capture); a plan whose sorted order differs from the DFS order;
